@@ -31,6 +31,7 @@ class Executor(Engine, ExprMixin, StmtMixin, CallMixin):
         self.stored_fields = set()
         self.logger = None
         self.spec_globals = {}
+        self.call_log = []
 
     # ------------------------------------------------------------------ spec evaluation
     def spec_frame(self, c, old_state):
@@ -78,8 +79,12 @@ class Executor(Engine, ExprMixin, StmtMixin, CallMixin):
 
     # ------------------------------------------------------------------ havoc
     def havoc(self, st, c, env, items):
+        recs = []
         for m in items:
-            self.havoc_one(st, c, env, m)
+            r = self.havoc_one(st, c, env, m)
+            if r is not None:
+                recs.append(r)
+        return recs
 
     def havoc_one(self, st, c, env, m):
         m = m.strip()
@@ -114,6 +119,7 @@ class Executor(Engine, ExprMixin, StmtMixin, CallMixin):
         cond_none = Val.is_N(base.t) if (base.hint is None or base.hint.opt) else z3.BoolVal(False)
         arr = self.harr(st, f)
         st.heap[f] = Ite(cond_none, arr, z3.Store(arr, Val.r(base.t), nv))
+        return (base_expr, f, nv)
 
     def eval_in(self, st, c, env, expr):
         s2 = State(dict(env), dict(st.heap), st.guard)
@@ -142,6 +148,28 @@ class Executor(Engine, ExprMixin, StmtMixin, CallMixin):
     def apply_contract(self, st, c, f, args, kwargs, line):
         self.used_contracts.add(c.qual)
         env = self.callee_env(st, c, f, args, kwargs)
+        if getattr(self.frame(), 'spec_mode', False) or any(getattr(fr, 'spec_mode', False) for fr in self.frames):
+            # inside a specification: only pure (uninterpreted) callees make sense; no effects, no exceptions
+            if c.pure_keys is None:
+                raise EngineError('specification calls impure function %s' % c.qual)
+            for n, specs in c.params.items():
+                v = env.get(n)
+                if isinstance(v, V):
+                    env[n] = V(v.t, parse_spec(specs))
+            pre = State(dict(env), dict(st.heap), st.guard)
+            keys = [self.eval_in(pre, c, env, k) for k in c.pure_keys]
+            uf = self.get_uf('pure_' + c.qual.replace('.', '_'), *([Val] * len(keys) + [Val]))
+            rt = uf(*[k.t for k in keys])
+            rspec = parse_spec(c.returns) if c.returns else None
+            if rspec is not None:
+                self.assume(st, rspec.assumption(rt))
+            res = V(rt, rspec)
+            env2 = dict(env)
+            env2['result'] = res
+            for name, expr in c.ensures.items():
+                wd, truth = self.eval_spec(st, expr, c, env2, pre)
+                self.assume(st, z3.Implies(wd, truth))
+            return res
         # re-hint arguments with the declared parameter types; caller must establish them
         for n, specs in c.params.items():
             spec = parse_spec(specs)
@@ -159,7 +187,10 @@ class Executor(Engine, ExprMixin, StmtMixin, CallMixin):
                         'precondition of %s: %s' % (c.qual, r))
         if c.events:
             self.events.append(Event(st.guard, c.qual, dict(env), line))
-        self.havoc(st, c, env, c.modifies)
+        havocs = self.havoc(st, c, env, c.modifies)
+        call_rec = {'qual': c.qual, 'line': line, 'guard': st.guard, 'havocs': havocs, 'result': None, 'raises': []}
+        if c.trusted:
+            self.call_log.append(call_rec)
         # exceptional outcomes
         for exname, cond in c.raises.items():
             exc = self.exc_class(exname)
@@ -177,6 +208,7 @@ class Executor(Engine, ExprMixin, StmtMixin, CallMixin):
                         wd2, tr2 = self.eval_spec(es, expr, c, env, pre)
                         self.assumes.append(z3.Implies(es.guard, z3.Implies(wd2, tr2)))
                 self.frame_or_top().append(Exit('raise', es, exc=exc, line=line))
+                call_rec['raises'].append((exname, cnd))
             st.guard = And(st.guard, Not(cnd))
         # result
         rspec = parse_spec(c.returns) if c.returns else None
@@ -194,6 +226,7 @@ class Executor(Engine, ExprMixin, StmtMixin, CallMixin):
         else:
             self.known_ref(st, rt)
         res = V(rt, rspec)
+        call_rec['result'] = rt
         env2 = dict(env)
         env2['result'] = res
         for name, expr in c.ensures.items():
